@@ -93,9 +93,12 @@ fn subset_with_offset_type<OffsetType: GvarOffset>(
     );
 
     // calculate glyphVariationDataArrayOffset: put the glyphVariationData at last in the table
-    let shared_tuples_size = 2 * gvar.axis_count() as u32 * gvar.shared_tuple_count() as u32;
-    let glyph_var_data_offset =
-        FIXED_HEADER_SIZE + glyph_var_data_offset_array_size + shared_tuples_size;
+    // 2 * 0xFFFF * 0xFFFF does not fit in u32: size in usize, offset checked
+    let shared_tuples_size = 2 * gvar.axis_count() as usize * gvar.shared_tuple_count() as usize;
+    let glyph_var_data_offset = u32::try_from(
+        FIXED_HEADER_SIZE as usize + glyph_var_data_offset_array_size as usize + shared_tuples_size,
+    )
+    .map_err(|_| SubsetError::SubsetTableError(Gvar::TAG))?;
     s.embed(glyph_var_data_offset)
         .map_err(|_| SubsetError::SubsetTableError(Gvar::TAG))?;
 
@@ -111,7 +114,7 @@ fn subset_with_offset_type<OffsetType: GvarOffset>(
         let shared_tuples_data = gvar
             .offset_data()
             .as_bytes()
-            .get(offset..offset + shared_tuples_size as usize)
+            .get(offset..offset + shared_tuples_size)
             .unwrap();
         s.embed_bytes(shared_tuples_data)
             .map_err(|_| SubsetError::SubsetTableError(Gvar::TAG))?;
